@@ -24,59 +24,75 @@ Proof. unfold zeros. rewrite lenN_repeat. lia. Qed.
 Lemma lenN_map {A B} (f : A -> B) l : lenN (map f l) = lenN l.
 Proof. unfold lenN. now rewrite map_length. Qed.
 
+Lemma takeN_firstn {A} n (l : list A) : takeN n l = firstn (N.to_nat n) l.
+Proof.
+  revert n. induction l as [|x r IH]; intros n; cbn [takeN].
+  - now rewrite firstn_nil.
+  - destruct (N.eqb_spec n 0) as [->|H]; [reflexivity|].
+    rewrite IH. replace (N.to_nat n) with (S (N.to_nat (N.pred n))) by lia. reflexivity.
+Qed.
+
+Lemma dropN_skipn {A} n (l : list A) : dropN n l = skipn (N.to_nat n) l.
+Proof.
+  revert n. induction l as [|x r IH]; intros n; cbn [dropN].
+  - now rewrite skipn_nil.
+  - destruct (N.eqb_spec n 0) as [->|H]; [reflexivity|].
+    rewrite IH. replace (N.to_nat n) with (S (N.to_nat (N.pred n))) by lia. reflexivity.
+Qed.
+
 Lemma lenN_takeN {A} n (l : list A) : lenN (takeN n l) = N.min n (lenN l).
-Proof. unfold lenN, takeN. rewrite firstn_length. lia. Qed.
+Proof. rewrite ?takeN_firstn; unfold lenN. rewrite firstn_length. lia. Qed.
 
 Lemma lenN_dropN {A} n (l : list A) : lenN (dropN n l) = lenN l - n.
-Proof. unfold lenN, dropN. rewrite skipn_length. lia. Qed.
+Proof. rewrite ?dropN_skipn; unfold lenN. rewrite skipn_length. lia. Qed.
 
 Lemma takeN_0 {A} (l : list A) : takeN 0 l = [].
-Proof. reflexivity. Qed.
+Proof. now rewrite takeN_firstn. Qed.
 
 Lemma dropN_0 {A} (l : list A) : dropN 0 l = l.
-Proof. reflexivity. Qed.
+Proof. now rewrite dropN_skipn. Qed.
 
 Lemma takeN_all {A} n (l : list A) : lenN l <= n -> takeN n l = l.
-Proof. unfold lenN, takeN. intros H. apply firstn_all2. lia. Qed.
+Proof. rewrite ?takeN_firstn; unfold lenN. intros H. apply firstn_all2. lia. Qed.
 
 Lemma dropN_all {A} n (l : list A) : lenN l <= n -> dropN n l = [].
-Proof. unfold lenN, dropN. intros H. apply skipn_all2. lia. Qed.
+Proof. rewrite ?dropN_skipn; unfold lenN. intros H. apply skipn_all2. lia. Qed.
 
 Lemma takeN_app_exact {A} n (a b : list A) : lenN a = n -> takeN n (a ++ b) = a.
 Proof.
-  unfold lenN, takeN. intros <-. rewrite Nat2N.id.
+  rewrite ?takeN_firstn; unfold lenN. intros <-. rewrite Nat2N.id.
   rewrite firstn_app, Nat.sub_diag, firstn_all. cbn. now rewrite app_nil_r.
 Qed.
 
 Lemma takeN_app_le {A} n (a b : list A) : n <= lenN a -> takeN n (a ++ b) = takeN n a.
 Proof.
-  unfold lenN, takeN. intros H. rewrite firstn_app.
+  rewrite ?takeN_firstn; unfold lenN. intros H. rewrite firstn_app.
   replace (N.to_nat n - length a)%nat with O by lia. cbn. now rewrite app_nil_r.
 Qed.
 
 Lemma takeN_app_ge {A} n (a b : list A) :
   lenN a <= n -> takeN n (a ++ b) = a ++ takeN (n - lenN a) b.
 Proof.
-  unfold lenN, takeN. intros H. rewrite firstn_app.
+  rewrite ?takeN_firstn; unfold lenN. intros H. rewrite firstn_app.
   rewrite firstn_all2 by lia. f_equal. f_equal. lia.
 Qed.
 
 Lemma dropN_app_exact {A} n (a b : list A) : lenN a = n -> dropN n (a ++ b) = b.
 Proof.
-  unfold lenN, dropN. intros <-. rewrite Nat2N.id.
+  rewrite ?dropN_skipn; unfold lenN. intros <-. rewrite Nat2N.id.
   rewrite skipn_app, Nat.sub_diag, skipn_all. reflexivity.
 Qed.
 
 Lemma dropN_app_le {A} n (a b : list A) : n <= lenN a -> dropN n (a ++ b) = dropN n a ++ b.
 Proof.
-  unfold lenN, dropN. intros H. rewrite skipn_app.
+  rewrite ?dropN_skipn; unfold lenN. intros H. rewrite skipn_app.
   replace (N.to_nat n - length a)%nat with O by lia. reflexivity.
 Qed.
 
 Lemma dropN_app_ge {A} n (a b : list A) :
   lenN a <= n -> dropN n (a ++ b) = dropN (n - lenN a) b.
 Proof.
-  unfold lenN, dropN. intros H. rewrite skipn_app.
+  rewrite ?dropN_skipn; unfold lenN. intros H. rewrite skipn_app.
   rewrite skipn_all2 by lia. cbn. f_equal. lia.
 Qed.
 
@@ -88,20 +104,20 @@ Qed.
 
 Lemma dropN_dropN {A} a b (l : list A) : dropN a (dropN b l) = dropN (b + a) l.
 Proof.
-  unfold dropN. rewrite skipn_add. f_equal. lia.
+  rewrite !dropN_skipn. rewrite skipn_add. f_equal. lia.
 Qed.
 
 Lemma takeN_takeN {A} a b (l : list A) : takeN a (takeN b l) = takeN (N.min a b) l.
 Proof.
-  unfold takeN. rewrite firstn_firstn. f_equal. lia.
+  rewrite !takeN_firstn. rewrite firstn_firstn. f_equal. lia.
 Qed.
 
 Lemma take_drop {A} n (l : list A) : takeN n l ++ dropN n l = l.
-Proof. apply firstn_skipn. Qed.
+Proof. rewrite takeN_firstn, dropN_skipn. apply firstn_skipn. Qed.
 
 Lemma takeN_zeros n m : n <= m -> takeN n (zeros m) = zeros n.
 Proof.
-  unfold takeN, zeros. intros H.
+  rewrite takeN_firstn. unfold zeros. intros H.
   replace (N.to_nat m) with (N.to_nat n + (N.to_nat m - N.to_nat n))%nat by lia.
   rewrite repeat_app. rewrite firstn_app, repeat_length, Nat.sub_diag.
   cbn. rewrite app_nil_r. rewrite firstn_all2; [reflexivity|]. rewrite repeat_length. lia.
@@ -109,7 +125,7 @@ Qed.
 
 Lemma dropN_zeros n m : dropN n (zeros m) = zeros (m - n).
 Proof.
-  unfold dropN, zeros. destruct (N.le_gt_cases n m) as [H|H].
+  rewrite dropN_skipn. unfold zeros. destruct (N.le_gt_cases n m) as [H|H].
   - replace (N.to_nat m) with (N.to_nat n + N.to_nat (m - n))%nat by lia.
     rewrite repeat_app, skipn_app, repeat_length, Nat.sub_diag.
     rewrite skipn_all2 by (rewrite repeat_length; lia). reflexivity.
@@ -218,10 +234,10 @@ Proof.
 Qed.
 
 Lemma bytes_ok_takeN n bs : bytes_ok bs = true -> bytes_ok (takeN n bs) = true.
-Proof. apply bytes_ok_firstn. Qed.
+Proof. rewrite takeN_firstn. apply bytes_ok_firstn. Qed.
 
 Lemma bytes_ok_dropN n bs : bytes_ok bs = true -> bytes_ok (dropN n bs) = true.
-Proof. apply bytes_ok_skipn. Qed.
+Proof. rewrite dropN_skipn. apply bytes_ok_skipn. Qed.
 
 Lemma le_encode_decode bs :
   bytes_ok bs = true -> le_encode (length bs) (le_decode bs) = bs.
@@ -469,7 +485,7 @@ Proof.
   destruct (N.ltb_spec (lenN buf) (off + sizeN l)) as [H'|_]; [lia|].
   unfold unpack_exact.
   assert (L : length (takeN (sizeN l) (dropN off buf)) = size l).
-  { unfold takeN, dropN, sizeN, lenN in *. rewrite firstn_length, skipn_length. lia. }
+  { rewrite takeN_firstn, dropN_skipn. unfold sizeN, lenN in *. rewrite firstn_length, skipn_length. lia. }
   revert L. generalize (takeN (sizeN l) (dropN off buf)). clear.
   induction l as [|[k lab] r IH]; intros bs L; cbn [unpack size] in *.
   - destruct bs; [eauto|discriminate].
